@@ -439,12 +439,16 @@ def Op.plainR : Op → Prop
 structure HInv (s : HSt) : Prop where
   good : Good15 s.tree
   queue : ∀ q ∈ s.tree.root.changes, q.change.isRestack = true
+  /-- a queued request keeps the flush from being skipped (`_request_hierarchy_change` asks for later processing when it
+      queues the first request; only the flush clears the flag, and it empties the queue) -/
+  qlater : s.tree.root.changes ≠ [] → s.tree.root.needsLater = true
   sync : Pending s.tree ∨ s.term.matches (cursorSpec s.tree) = true
 
 theorem hinv_mk {s : HSt} {t' : Tree} (hi : HInv s) (hg' : Good15 t')
-    (hq' : ∀ q ∈ t'.root.changes, q.change.isRestack = true) (hpk : Pending s.tree → Pending t')
+    (hq' : ∀ q ∈ t'.root.changes, q.change.isRestack = true)
+    (hql : t'.root.changes ≠ [] → t'.root.needsLater = true) (hpk : Pending s.tree → Pending t')
     (hr : Pending t' ∨ cursorSpec t' = cursorSpec s.tree) : HInv { s with tree := t' } := by
-  refine ⟨hg', hq', ?_⟩
+  refine ⟨hg', hq', hql, ?_⟩
   rcases hi.sync with hp | hm
   · exact .inl (hpk hp)
   · rcases hr with hp | he
@@ -453,7 +457,23 @@ theorem hinv_mk {s : HSt} {t' : Tree} (hi : HInv s) (hg' : Good15 t')
 
 theorem hinv_of_step {s : HSt} {t' : Tree} (hi : HInv s) (hg' : Good15 t') (hk : RootKeeps s.tree.root t'.root)
     (hr : Pending t' ∨ cursorSpec t' = cursorSpec s.tree) : HInv { s with tree := t' } :=
-  hinv_mk hi hg' (fun q hq => hi.queue q (hk.2.2.2 q hq)) (pending_keeps hk) hr
+  hinv_mk hi hg' (fun q hq => hi.queue q (hk.2.2.2 q hq))
+    (fun hne => by
+      cases hc : t'.root.changes with
+      | nil => exact absurd hc hne
+      | cons q qs =>
+        have hq : q ∈ s.tree.root.changes := hk.2.2.2 q (by rw [hc]; simp)
+        exact hk.2.2.1 (hi.qlater (fun h0 => by rw [h0] at hq; cases hq)))
+    (pending_keeps hk) hr
+
+theorem qlater_keeps {s : HSt} {t' : Tree} (hi : HInv s) (hk : RootKeeps s.tree.root t'.root) :
+    t'.root.changes ≠ [] → t'.root.needsLater = true := by
+  intro hne
+  cases hc : t'.root.changes with
+  | nil => exact absurd hc hne
+  | cons q qs =>
+    have hq : q ∈ s.tree.root.changes := hk.2.2.2 q (by rw [hc]; simp)
+    exact hk.2.2.1 (hi.qlater (fun h0 => by rw [h0] at hq; cases hq))
 
 theorem notify_requests {t t' : Tree} {win : Nat} {v : Int} (hh : setFocusChildNotify t win v = .ok t') :
     cursorSpec t' = cursorSpec t := by
@@ -558,7 +578,7 @@ theorem flush_step {fx : Fixes} (hfx : fx.hiddenRoot = true) {s s' : HSt} (hi : 
       rcases hi.sync with ⟨_, h2⟩ | hm
       · rw [hl] at h2; cases h2
       · exact hm
-    exact ⟨⟨hi.good, hi.queue, .inr hm⟩, hm⟩
+    exact ⟨⟨hi.good, hi.queue, hi.qlater, .inr hm⟩, hm⟩
   | true =>
     obtain ⟨t1, h1, hwins, hq', b, c, hd, hcalls, hspec⟩ := flush_pieces hf hl
     have hg0 : GoodF { s.tree with root := { s.tree.root with needsLater := false } } :=
@@ -603,7 +623,7 @@ theorem flush_step {fx : Fixes} (hfx : fx.hiddenRoot = true) {s s' : HSt} (hi : 
           · have := k1.1 h3; rw [e1] at this; cases this
           · have := k1.2.1 h3; rw [e2] at this; cases this
         · exact hm
-    exact ⟨⟨hg', (by rw [hq']; intro q hq; cases hq), .inr hm'⟩, hm'⟩
+    exact ⟨⟨hg', (by rw [hq']; intro q hq; cases hq), (by rw [hq']; intro h; exact absurd rfl h), .inr hm'⟩, hm'⟩
 
 /-- Every other operation of a plain history keeps the invariant (repaired source). -/
 theorem plain_step {fx : Fixes} (hfx1 : fx.hiddenRoot = true) (hfx2 : fx.chainRestore = true) {s s' : HSt} {op : Op}
@@ -619,16 +639,21 @@ theorem plain_step {fx : Fixes} (hfx1 : fx.hiddenRoot = true) (hfx2 : fx.chainRe
     obtain ⟨w0, _, hx⟩ := hx
     split at hx
     · simp only [pure_ok] at hx; subst hx
-      exact hinv_mk hi hi.good hi.queue id (.inr rfl)
+      exact hinv_mk hi hi.good hi.queue hi.qlater id (.inr rfl)
     · simp only [bind_ok, pure_ok] at hx
       obtain ⟨_, _, hx⟩ := hx
       subst hx
-      refine hinv_mk hi hg' ?_ ?_ (.inr (cursorSpec_wins rfl))
+      refine hinv_mk hi hg' ?_ ?_ ?_ (.inr (cursorSpec_wins rfl))
       · intro q hq
         simp only [List.mem_append, List.mem_singleton] at hq
         rcases hq with hq | hq
         · exact hi.queue q hq
         · subst hq; exact hch
+      · intro _
+        show (s.tree.root.needsLater || s.tree.root.changes.isEmpty) = true
+        cases hc : s.tree.root.changes with
+        | nil => simp
+        | cons q qs => rw [hi.qlater (by rw [hc]; simp)]; rfl
       · rintro ⟨h1, h2⟩
         exact ⟨h1, by show (s.tree.root.needsLater || _) = true; rw [h2]; rfl⟩
   | flush => exact (flush_step hfx1 hi hs).1
@@ -797,7 +822,7 @@ theorem hinv_newRoot (l c : Int) (hl : 0 < l) (hc : 0 < c) : HInv { tree := newR
       exact winOk_intro (fun p hp => by cases hp) (fun ch hch => by cases hch) (fun ch hch => by cases hch)
   have hroot : (newRoot l c).root = { damage := [⟨0, 0, l, c⟩], needsExpose := true, needsLater := true } := by
     unfold newRoot; simp only [hdm]; rfl
-  refine ⟨?_, (by rw [hroot]; intro q hq; cases hq), .inl ⟨.inr (by rw [hroot]), by rw [hroot]⟩⟩
+  refine ⟨?_, (by rw [hroot]; intro q hq; cases hq), (by rw [hroot]; intro _; rfl), .inl ⟨.inr (by rw [hroot]), by rw [hroot]⟩⟩
   exact { wf := hwf
           wfp := ⟨fun cur w hw ch hch => by obtain ⟨_, rfl⟩ := hlook cur w hw; cases hch⟩
           rootWin := ⟨⟨{ rect := ⟨0, 0, l, c⟩, isRoot := true }, by unfold newRoot; simp, rfl, rfl, rfl, rfl, rfl⟩⟩
